@@ -66,6 +66,8 @@ package postprocessor
 //@   requires [archived-has-response] item.status == models.ItemArchived ==> item.url.response != nil
 //@   loop range invariant [tree] item != nil && models.wfNode(item) && config.config != nil && item.url != nil && item.url == old(item.url) && item.parent == old(item.parent)
 //@   loop range#2 invariant [tree] item != nil && config.config != nil && item.url != nil && item.url == old(item.url)
+//@   loop range#2 invariant [via] @C15 forall(j, 0, len(outlinks), outlinks[j] != nil ==> outlinks[j].seedVia == models.urlKey(item.url))
+//@   ensures [via] @C15 forall(j, 0, len(result), result[j] != nil ==> result[j].seedVia == models.urlKey(item.url)) // C15: every outlink the pipeline discovers is handed to the queue with ... its parent page as 'via'
 //@   ensures [not-archived] old(item.status) != models.ItemArchived ==> item.status == old(item.status) && len(item.children) == old(len(item.children)) && len(result) == 0
 //@   ensures [redirect-max] old(item.status == models.ItemArchived && isRedirectCode(item.url.response.StatusCode) && item.url.Redirects >= config.config.MaxRedirect) ==> item.status == models.ItemCompleted && len(item.children) == 0 && len(result) == 0 // C06: at most --max-redirect redirects are followed in a chain
 //@   ensures [redirect-one] old(item.status == models.ItemArchived && isRedirectCode(item.url.response.StatusCode) && item.url.Redirects < config.config.MaxRedirect) ==> item.status == models.ItemGotRedirected && len(item.children) == 1 && item.children[0].url.Redirects == old(item.url.Redirects) + 1 && item.children[0].url.Hops == old(item.url.Hops) && item.children[0].status == models.ItemFresh && len(result) == 0 // C06: redirect targets inherit the page's hops
